@@ -53,6 +53,15 @@ def judge(ctx, run, meta, sched):
         ctx.sample(dict(family=meta.get("family"), schedule=sched, engine_ops_head=ops))
 
 
+def judge_path_failure(ctx, run, meta, sched):
+    judge(ctx, run, meta, sched)
+    for arn in getattr(run, "never_terminated", []) or []:
+        ctx.violation("path-failure-left-the-execution-without-terminal-status", S.witness_of(run, dict(arn=arn, meta=meta, schedule_name=sched)), None)
+    seq = list(run.status_seq.values())
+    if seq and seq[0] and seq[0][-1] != "FAILED":
+        ctx.violation("path-that-matches-nothing-did-not-fail-the-execution", S.witness_of(run, dict(meta=meta, statuses=seq[0])), None)
+
+
 def poison_hook(kind):
     def hook(run):
         w = run.world
@@ -139,6 +148,42 @@ def run(ctx):
             scn = {"machines": {"m": {"asl": asl}}, "funcs": dict(F.FUNCS), "starts": [{"machine": "m", "name": "e0", "input": {"none": [], "items": [dict(it, none=[]) for it in F.items(2, depth=0)]}}]}
             ctx.count("family:" + label)
             _sched.run_schedules(ctx, scn, dict(family=label, kind=outer), judge, n_random, ["c03-empty", j, outer])
+
+    # a path that matches nothing, at every place a state evaluates one and for every state type - also where the evaluation happens in a timer or reply
+    # callback (Wait, Task): the event is still acknowledged, after the terminal status, and nothing is left
+    k = 0
+    for typ in ("Pass", "Task", "Wait", "Choice", "Succeed", "Parallel", "Map"):
+        for field in ("InputPath", "OutputPath"):
+            for path in ("$.nope", "$$.Execution.Input.nope", "$$.Nope.x"):
+                for where in ("top", "branch"):
+                    k += 1
+                    if not ctx.mine(k):
+                        continue
+                    if typ == "Pass":
+                        st = F.P()
+                    elif typ == "Task":
+                        st = F.T("echo")
+                    elif typ == "Wait":
+                        st = F.W(2)
+                    elif typ == "Choice":
+                        st = {"Type": "Choice", "Choices": [{"Variable": "$.x", "IsPresent": True, "Next": "Z"}], "Default": "Z"}
+                    elif typ == "Succeed":
+                        st = {"Type": "Succeed"}
+                    elif typ == "Parallel":
+                        st = {"Type": "Parallel", "Branches": [F.chain([("Q1", F.T("echo"))])]}
+                    else:
+                        st = {"Type": "Map", "ItemsPath": "$.items", "ItemProcessor": F.chain([("I1", F.T("echo"))])}
+                    st = dict(st); st[field] = path
+                    if typ not in ("Choice", "Succeed"):
+                        st["Next"] = "Z"
+                    inner = {"StartAt": "Bad", "States": {"Bad": st, "Z": {"Type": "Pass", "End": True}}}
+                    if where == "top":
+                        asl = inner
+                    else:
+                        asl = F.chain([("Fan", {"Type": "Parallel", "Branches": [inner, F.chain([("Sib", F.T("slow3"))])]}), ("After", F.P())])
+                    scn = {"machines": {"m": {"asl": asl}}, "funcs": dict(F.FUNCS), "starts": [{"machine": "m", "name": "e0", "input": {"x": 1, "items": F.items(2, depth=0)}}]}
+                    ctx.count("family:path-failure")
+                    _sched.run_schedules(ctx, scn, dict(family="path-failure", state_type=typ, field=field, path=path, where=where), judge_path_failure, 1, ["c03-path", k])
 
     # recorded regression scenarios (scenario + schedule): defects found elsewhere whose symptom is this property's
     import glob, os
